@@ -68,6 +68,11 @@ def make_config(name, log=None):
         "BioConsert[Borda,Copeland]": lambda: BioConsert([rec(BordaCount()), rec(CopelandMethod())]),
         "BioConsert[PickAPerm,Borda]": lambda: BioConsert([rec(PickAPerm()), rec(BordaCount())]),
         "BioCo": lambda: BioCo(),
+        # nested starters (not wrapped: the library may look at their class)
+        "BioConsert[BioCo]": lambda: BioConsert([BioCo()]),
+        "BioConsert[Copeland,BioCo]": lambda: BioConsert([CopelandMethod(), BioCo()]),
+        "BioConsert[BioConsert[PickAPerm]]": lambda: BioConsert([BioConsert([PickAPerm()])]),
+        "ParCons(1,BioConsert[BioCo])": lambda: ParCons(auxiliary_algorithm=BioConsert([BioCo()]), bound_for_exact=1),
         "KwikSortRandom": lambda: KwikSortRandom(),
         "Borda": lambda: BordaCount(),
         "Borda(bucket_id)": lambda: BordaCount(use_bucket_id=True),
@@ -410,7 +415,10 @@ def concrete_run(p):
     from corankco.scoringscheme import ScoringScheme
     install()
     standins.PINNED[:] = [c[1] for c in p.get("choices", [])]
-    sc = ScoringScheme([[float(x) for x in p["scheme"][0]], [float(x) for x in p["scheme"][1]]])
+    if "scheme_written" in p:
+        sc = ScoringScheme(p["scheme_written"])        # penalties exactly as the user wrote them (ints stay ints)
+    else:
+        sc = ScoringScheme([[float(x) for x in p["scheme"][0]], [float(x) for x in p["scheme"][1]]])
     if "history" in p and "op" in p["history"]:
         from corankco.element import Element
         ds = Dataset.from_raw_list(shapes.from_json(p["history"]["first"]))
@@ -658,7 +666,8 @@ def run_item(args):
 # ------------------------------------------------------------------ item lists
 HEAVY = {"BioConsert", "BioConsert[Copeland]", "BioConsert[Borda]", "BioConsert[PickAPerm]", "BioConsert[KwikSort]", "BioConsert[Borda,Copeland]",
          "BioConsert[PickAPerm,Borda]",
-         "BioConsert[KwikSort,Borda]", "BioConsert[Copeland,PickAPerm]", "BioCo", "ParCons(1,BioConsert)"}
+         "BioConsert[KwikSort,Borda]", "BioConsert[Copeland,PickAPerm]", "BioCo", "ParCons(1,BioConsert)",
+         "BioConsert[BioCo]", "BioConsert[Copeland,BioCo]", "BioConsert[BioConsert[PickAPerm]]", "ParCons(1,BioConsert[BioCo])"}
 NAMINGS = {1: [[5], ["x"]], 2: [[1, 2], [2, 1], ["b", "a"]], 3: [[1, 2, 3], [3, 1, 2], ["b", "a", "c"]],
            4: [[1, 2, 3, 4], [4, 2, 3, 1], ["d", "a", "c", "b"], ["1", "2", "3", "A"]]}
 
